@@ -109,7 +109,13 @@ MapKinds == <<
   K("keymap-len-dflt", [type |-> "object", propertyNames |-> [type |-> "string", maxLength |-> 3], additionalProperties |-> SStr],
     JObj1("k", JS(<<"v">>)), NoDefs),
   K("keymap-pattern-empty", [type |-> "object", propertyNames |-> KeyPat6, additionalProperties |-> SInt], JObj(<< >>, << >>), NoDefs) >>
-AllKinds == Kinds \o MapKinds \o Flat([i \in DOMAIN FmtNames |-> FmtKindsOf(FmtNames[i])])
+(* sets: duplicates anywhere in the default make it invalid *)
+SetKinds == <<
+  K("set-ok", SSet(SStr), JArr(<<JS(<<"a">>), JS(<<"b">>)>>), NoDefs),
+  K("set-dup-adjacent", SSet(SStr), JArr(<<JS(<<"a">>), JS(<<"a">>), JS(<<"b">>)>>), NoDefs),
+  K("set-dup-apart", SSet(SStr), JArr(<<JS(<<"a">>), JS(<<"b">>), JS(<<"a">>)>>), NoDefs),
+  K("set-int-dup-apart", SSet(SInt), JArr(<<JInt(1), JInt(2), JInt(3), JInt(1)>>), NoDefs) >>
+AllKinds == Kinds \o MapKinds \o SetKinds \o Flat([i \in DOMAIN FmtNames |-> FmtKindsOf(FmtNames[i])])
 
 Init == \E k \in DOMAIN AllKinds, p \in Positions : c = [k |-> AllKinds[k], pos |-> p]
 Next == UNCHANGED c
